@@ -75,6 +75,66 @@ func relevantHyps(o *Obligation) []*Term {
 	return base
 }
 
+// sliceHyps keeps the hypotheses within `hops` steps of the goal in the graph that links two formulas sharing a state
+// symbol (a constant: a variable, a memory cell, a call result; spec functions and pure-function symbols do not link).
+// Dropping hypotheses is sound: a sliced VC that is unsat proves the obligation.  Used as an extra racer for slow VCs
+// of long functions, where most of the path's facts are irrelevant to the clause being proved.
+func (e *Engine) sliceHyps(o *Obligation, hops int) []*Term {
+	consts := func(t *Term) map[string]bool {
+		syms := map[string]symInfo{}
+		t.collectSyms(nil, syms)
+		out := map[string]bool{}
+		for k, si := range syms {
+			if len(si.Args) > 0 {
+				continue
+			}
+			if _, isSpec := e.spec.sigs[k]; isSpec {
+				continue
+			}
+			out[k] = true
+		}
+		return out
+	}
+	cur := consts(o.Goal)
+	hc := make([]map[string]bool, len(o.Hyps))
+	taken := make([]bool, len(o.Hyps))
+	for i, h := range o.Hyps {
+		hc[i] = consts(h)
+		if len(hc[i]) == 0 {
+			taken[i] = true
+		}
+	}
+	for hop := 0; hop < hops; hop++ {
+		next := map[string]bool{}
+		for i := range o.Hyps {
+			if taken[i] {
+				continue
+			}
+			for k := range hc[i] {
+				if cur[k] {
+					taken[i] = true
+					break
+				}
+			}
+			if taken[i] {
+				for k := range hc[i] {
+					next[k] = true
+				}
+			}
+		}
+		for k := range next {
+			cur[k] = true
+		}
+	}
+	var out []*Term
+	for i, h := range o.Hyps {
+		if taken[i] {
+			out = append(out, h)
+		}
+	}
+	return out
+}
+
 func (e *Engine) renderVC(o *Obligation) (string, error) {
 	o.Hyps = relevantHyps(o)
 	syms := map[string]symInfo{}
@@ -103,7 +163,13 @@ func (e *Engine) renderVC(o *Obligation) (string, error) {
 	for s := range sortsNeeded {
 		used[s] = true
 	}
-	forms := e.spec.closure(used)
+	hide := map[string]bool{}
+	if con := e.cs.Funcs[o.Func]; con != nil {
+		for _, h := range con.Hide {
+			hide[strings.TrimPrefix(h, "spec.")] = true
+		}
+	}
+	forms := e.spec.closure(used, hide)
 	defined := map[string]bool{}
 	for _, f := range forms {
 		for _, d := range f.defines {
@@ -218,7 +284,7 @@ func (e *Engine) discharge(o *Obligation, dir string, idx int, timeoutS int, tho
 	o.SMTFile = file
 	ctx, cancel := context.WithCancel(context.Background())
 	defer cancel()
-	results := make(chan solveResult, len(solvers))
+	results := make(chan solveResult, len(solvers)+1)
 	var wg sync.WaitGroup
 	if o.ExpectSat && timeoutS > 3 {
 		timeoutS = 3 // vacuity guards: anything but `unsat` passes, so do not wait long for a model
@@ -246,9 +312,39 @@ func (e *Engine) discharge(o *Obligation, dir string, idx int, timeoutS int, tho
 		}
 		start(s, d)
 	}
+	nRacers := len(solvers)
+	if !o.ExpectSat && len(o.Hyps) > 40 {
+		// sliced racer: same obligation with only the hypotheses near the goal; only `unsat` from it counts
+		so := *o
+		so.Hyps = e.sliceHyps(o, 3)
+		if len(so.Hyps) < len(o.Hyps) {
+			if stext, err := e.renderVC(&so); err == nil {
+				sfile := filepath.Join(dir, fmt.Sprintf("vc%05d.sliced.smt2", idx))
+				if os.WriteFile(sfile, []byte(stext), 0o644) == nil {
+					nRacers++
+					wg.Add(1)
+					go func() {
+						defer wg.Done()
+						select {
+						case <-time.After(1000 * time.Millisecond):
+						case <-ctx.Done():
+							results <- solveResult{status: "cancelled", solver: "sliced"}
+							return
+						}
+						r := runSolver(ctx, solvers[0], sfile, timeoutS)
+						r.solver += "/sliced"
+						if r.status != "unsat" {
+							r.status = "unknown"
+						}
+						results <- r
+					}()
+				}
+			}
+		}
+	}
 	var all []solveResult
 	final := solveResult{status: "unknown"}
-	for range solvers {
+	for k := 0; k < nRacers; k++ {
 		r := <-results
 		if r.status == "cancelled" {
 			continue
